@@ -297,6 +297,77 @@ def rule_retype(ctx, rep):
     rep.floor("R-RETYPE", 6, "header erasure (both ways), str, protected<->unchecked, MaybeUninit->init, thin<->thick")
 
 
+def _nobb(e):
+    from . import c06
+
+    return c06.nobb(e)
+
+
+def rule_fatlen(ctx, rep):
+    """Every fabrication of a fat block pointer (slice_from_raw_parts re-typed to INNER<..[T]..>) takes its length either from the
+    value the block was sized with, or from the length stored in that very block; Box<INNER<[..]>> frees with the layout that length implies."""
+    for tag, F, E in ctx.each(da=False):
+        n = 0
+        for b in F.body_list:
+            B = cfg.Body(b)
+            for bi, t in B.calls():
+                if atomics.callee_of(t) not in ("core::ptr::slice_from_raw_parts_mut", "core::ptr::slice_from_raw_parts"):
+                    continue
+                # does the result become a block pointer?
+                dl = t["dest"]["l"]
+                becomes_block = False
+                for bl in b["blocks"]:
+                    for s in bl["stmts"]:
+                        if s["k"] == "assign" and s["rv"]["k"] == "cast":
+                            pl = operand_place(s["rv"]["op"])
+                            if pl is not None and inner_of_nonnull(F, s["rv"]["ty"]) is not None:
+                                o = B.origin(s["rv"]["op"])
+                                if o.get("kind") == "call" and o["term"] is t:
+                                    becomes_block = True
+                if not becomes_block:
+                    continue
+                n += 1
+                ik = "%s/fat-pointer-length" % b["key"]
+                len_e = _nobb(symx.expr(F, B, t["args"][1]))
+                ptr_e = _nobb(symx.expr(F, B, t["args"][0]))
+                data_name = F.data_field[1]
+                ok = False
+                why = "the length of the fabricated fat block pointer is %s" % symx.show(symx.expr(F, B, t["args"][1]))
+                # (B) the block's own stored length, read through the pointer being re-typed
+                if len_e[0] == "proj" and ptr_e[0] in ("proj", "arg") and len_e[2][-3:] == (data_name, "header", "length"):
+                    base = ("proj", len_e[1], len_e[2][:-3]) if len_e[2][:-3] else len_e[1]
+                    if base == ptr_e:
+                        ok = True
+                # (A) the value the allocation was sized with
+                if not ok:
+                    owner = F.body(b["owner"]) if b["kind"] == "Closure" else b
+                    OB = cfg.Body(owner)
+                    sized_with = []
+                    for bj, t2 in OB.calls():
+                        if atomics.callee_of(t2) == "<core::alloc::layout::Layout>::array":
+                            sized_with.append(_nobb(symx.expr(F, OB, t2["args"][0])))
+                    cand = len_e
+                    if b["kind"] == "Closure" and len_e[0] == "proj" and len_e[1] == ("arg", 1) and len_e[2]:
+                        try:
+                            k = int(len_e[2][0])
+                        except ValueError:
+                            k = None
+                        if k is not None:
+                            for bl in owner["blocks"]:
+                                for s in bl["stmts"]:
+                                    if s["k"] == "assign" and s["rv"]["k"] == "agg" and s["rv"].get("agg") == "closure" and s["rv"].get("def") == b["key"] and k < len(s["rv"]["ops"]):
+                                        cand = _nobb(symx.expr(F, OB, s["rv"]["ops"][k]))
+                    if any(cand == x for x in sized_with):
+                        ok = True
+                    else:
+                        why += ", which is neither the length the block was allocated for (%s) nor the length stored in the block: a `Box<INNER<[..]>>` made from this pointer frees the block with a layout it was not requested with" % ([symx.show(x) for x in sized_with] or "no Layout::array in the enclosing function")
+                if ok:
+                    rep.ok("R-FATLEN", ik, cfg=tag)
+                else:
+                    rep.bad("R-FATLEN", ik, why, F.loc(b, t["span"]), tag)
+    rep.floor("R-FATLEN", 2, "the allocation closure and the thin-to-fat helper")
+
+
 def rule_free_type(ctx, rep):
     """The release side frees the block through the handle's own, un-retyped pointer."""
     for tag, F, E in ctx.each(da=False):
@@ -335,6 +406,7 @@ def run(ctx, rep):
     rule_layout(ctx, rep)
     rule_data_offset(ctx, rep)
     rule_retype(ctx, rep)
+    rule_fatlen(ctx, rep)
     rule_free_type(ctx, rep)
     c07.rule_null(ctx, rep)
 
